@@ -12,9 +12,9 @@ in both directions (optionally server-first bytes).
 
 Oracle (independent of next_layer.py): excluded <=> an ignore pattern matches one of the host:port forms of
 {server address, SNI, Host header}, or allow patterns exist and none matches any form (Python `re`, case-insensitive,
-as documented).  Excluded => no tls_start_client, no HTTP request hook, no TCP flow, and the server peer receives
+as documented).  Excluded => no tls_clienthello/tls_start_client, no HTTP request hook, no TCP flow, and the server peer receives
 exactly the client's bytes / the client exactly the server's bytes, in order, incl. those sent before the decision.
-Not excluded => interception starts (tls_start_client for TLS, requestheaders for HTTP, tcp_start in reverse tcp/tls).
+Not excluded => interception starts (tls_clienthello for TLS, requestheaders for HTTP, tcp_start in reverse tcp/tls).
 Same verdict for every segmentation (TLS: first segment >= 3 bytes, the documented minimum).
 """
 import re
@@ -33,7 +33,9 @@ RULE = ("mode x destination x first flight (TLS hello with SNI / HTTP with Host 
         "relative to the address alone); distinct by (mode, flight, rules, cuts)")
 ASSUMPTIONS = ["lib/driver.py interprets commands like proxy/server.py; server peername == requested address (no DNS)",
                "Python `re` semantics of the user's patterns are trusted (the option is documented as a Python regex)",
-               "TLS not-excluded side only observes that tls_start_client fires (no TLS stack attached)"]
+               "not-excluded side only observes that interception starts (tls_clienthello / requestheaders / tcp_start)",
+               "server-first bytes are only generated for opaque protocols (no real protocol has a server greeting "
+               "followed by a client TLS hello or HTTP request)"]
 LEVEL_TEXT = ("generated-input search against an independent decision model and a byte-exact relay comparison, for "
               "~1e5 (case, segmentation) pairs per quick run; no proof beyond the explored inputs")
 LEVEL_NOTE = "trusts lib/driver.py, lib/modes_harness.py and Python's re module"
@@ -42,7 +44,7 @@ QUICK_N, THOROUGH_N = 24_000, 700_000   # Hypothesis draws; each is run under 3 
 MODES = ["regular", "transparent", "socks5", "reverse:tcp", "reverse:tls", "reverse:http", "reverse:https"]
 HOSTS = ["addr.example", "10.0.0.5", "2001:db8::5", "Addr.Example", "a-b.c9.example.org", "192.168.1.77"]
 PORTS = [443, 80, 8443, 22, 8080]
-SNIS = [b"sni.example", b"SNI.Example", b"addr.example", b"x.sni.example", b"s", None]
+SNIS = [b"sni.example", b"SNI.Example", b"addr.example", b"x.sni.example", b"sn", None]
 HDRS = [b"hdr.example", b"HDR.example", b"hdr.example:8080", b"addr.example", b"hdr.example:80", b"[2001:db8::9]",
         b"[2001:db8::9]:81", b"10.9.9.9", b"sub.hdr.example."]
 OWS = [b" ", b"", b"\t", b"  ", b" \t ", b""]
@@ -151,7 +153,7 @@ def _decode(b: bytes):
     case["show_ignored"] = (o >> 3) % 8 == 0
     case["coalesce"] = (o >> 6) == 3
     sf = r.byte()
-    case["server_first"] = r.pick([b"220 ready\r\n", b"SSH-2.0-x\r\n"]) if sf < 24 and flight["kind"] != "http" else b""
+    case["server_first"] = r.pick([b"220 ready\r\n", b"SSH-2.0-x\r\n"]) if sf < 40 and flight["kind"] == "raw" else b""
     case["tail"] = [[r.pick(["c", "s"]), r.pick([b"ping", b"\x00\xff" * 3, b"GET / HTTP/1.1\r\n\r\n", b"\r\n", b"pong" * 5])]
                     for _ in range(r.byte() % 5)]
     n = len(flight_bytes(flight))
@@ -204,13 +206,15 @@ def _socks_request(host, port) -> bytes:
     return b"\x05\x01\x00" + b"\x05\x01\x00" + a + bytes([port >> 8, port & 255])
 
 
-EVID_TLS = {"tls_start_client"}
+EVID_TLS = {"tls_clienthello", "tls_start_client"}   # the hello was parsed in order to terminate TLS
+EVID_TLS_UP = {"tls_start_server"}                   # mitmproxy starts its own TLS session with the server
 EVID_HTTP = {"requestheaders", "request"}
 EVID_TCP = {"tcp_start", "tcp_message"}
 
 
-def run_once(env, case, cuts):
-    """-> dict(observation).  cuts None = first flight in one piece."""
+def run_once(env, case, cuts, with_tail=True):
+    """-> dict(observation).  cuts None = first flight in one piece.  with_tail: send the follow-up traffic (only
+    done when a pass-through is expected: what happens to garbage inside an intercepted session is not C19's topic)"""
     mode = case["mode"]
     host, port = case["addr"]
     spec = mode if not mode.startswith("reverse:") else "%s://%s" % (mode, _authority(host, port).decode())
@@ -247,24 +251,18 @@ def run_once(env, case, cuts):
                 return s
         return None
 
-    if case["server_first"] and server() is not None:
+    if case["server_first"] and with_tail and server() is not None:
         d.recv(server(), case["server_first"])
         sent_s += case["server_first"]
-    def tls_started():
-        # no TLS stack is attached in this harness (TlsConfig would provide it): once mitmproxy has decided to
-        # terminate TLS the verdict is in, stop before the handshake proper
-        return any(t[0] == "hook" and t[1] == "tls_start_client" for t in d.trace)
-
     first = True
     for s in segs:
-        if tls_started():
-            break
         d.recv(client, s)
         sent_c += s[len(pre):] if (first and pre and case["coalesce"]) else s
         first = False
-    for who, data in case["tail"]:
-        if d.crashed or tls_started():
-            break
+    stop = EVID_TLS | EVID_TLS_UP | EVID_HTTP
+    for who, data in (case["tail"] if with_tail else ()):
+        if d.crashed or any(t[0] == "hook" and t[1] in stop for t in d.trace[nhooks_pre:]):
+            break   # already intercepted (reported below): what happens to the follow-up bytes is not C19's topic
         if who == "c":
             if client.state.value & 1:  # CAN_READ
                 d.recv(client, data)
@@ -289,7 +287,7 @@ def run_once(env, case, cuts):
         handshake_ok = True
     return {
         "crash": d.crashed, "addon_errors": list(env.addon_errors),
-        "tls": bool(EVID_TLS & set(names)), "http": bool(http_hooks), "tcp": bool(EVID_TCP & set(names)),
+        "tls": bool(EVID_TLS & set(names)), "tls_up": bool(EVID_TLS_UP & set(names)), "http": bool(http_hooks), "tcp": bool(EVID_TCP & set(names)),
         "names": names, "to_server": b"".join(d.out(s) for s in d.servers), "to_client": cout,
         "servers": [tuple(s.address) if s.address else None for s in d.servers],
         "sent_c": sent_c, "sent_s": sent_s, "handshake_ok": handshake_ok,
@@ -343,7 +341,7 @@ def _split_class(case, cuts, first_seg):
 
 
 def check_case(case, ctx):
-    env = Env.get()
+    env = Env.get(tls=True)
     excl, hit, addr_only, forms = expected_excluded(case)
     fl = case["flight"]
     kind = fl["kind"]
@@ -354,7 +352,7 @@ def check_case(case, ctx):
     for idx, cuts in enumerate(runs):
         if idx:
             ctx.ev()
-        o = run_once(env, case, cuts)
+        o = run_once(env, case, cuts, with_tail=excl)
         sc = _split_class(case, cuts, o["first_seg"])
         # bucket = oracle clause + root-cause class (mode, header case and position go into the histogram only)
         tag = "%s,src=%s%s,%s" % (kind, src, (",ows=none" if hc.startswith("ows=none") else ",ows") if hc else "", sc)
@@ -370,13 +368,13 @@ def check_case(case, ctx):
             if below_min and not addr_only:
                 ctx.cls("below-tls-minimum")
             else:
-                if o["tls"]:
+                if o["tls"] or o["tls_up"]:
                     ctx.fail("excluded-but-tls-terminated:" + tag, "forms=%r ignore=%r allow=%r hooks=%r" % (forms, case["ignore"], case["allow"], o["names"]))
                 if o["http"]:
                     ctx.fail("excluded-but-http-parsed:" + tag, "forms=%r ignore=%r allow=%r hooks=%r" % (forms, case["ignore"], case["allow"], o["names"]))
                 if o["tcp"] and not case["show_ignored"]:
                     ctx.fail("excluded-but-tcp-flow:" + tag, "forms=%r ignore=%r allow=%r hooks=%r" % (forms, case["ignore"], case["allow"], o["names"]))
-                if not (o["tls"] or o["http"]):
+                if not (o["tls"] or o["http"] or o["tls_up"]):
                     if o["to_server"] != o["sent_c"]:
                         ctx.fail("excluded-relay-to-server:" + tag, "client sent %r, server got %r (servers %r)" % (o["sent_c"], o["to_server"], o["servers"]))
                     if o["to_client"] != o["sent_s"]:
@@ -394,7 +392,9 @@ def check_case(case, ctx):
                 if want_tcp and not o["tcp"] or not want_tcp and not o["http"]:
                     # a first segment that does not yet look like HTTP may legitimately be classified as raw TCP
                     # when rawtcp is on; that is still interception (a TCP flow), so accept either kind of flow
-                    if not (o["tcp"] or o["http"]):
+                    # reverse tls/https: the HTTP/TCP layer only starts after mitmproxy's own TLS handshake with the
+                    # server; that handshake having been started is the evidence
+                    if not (o["tcp"] or o["http"] or (o["tls_up"] and mode in ("reverse:tls", "reverse:https"))):
                         ctx.fail("not-excluded-but-not-intercepted:" + tag, "forms=%r ignore=%r allow=%r hooks=%r" % (forms, case["ignore"], case["allow"], o["names"]))
         discriminating = bool(case["ignore"] or case["allow"]) and (0 < len(hit) < len(forms) or excl != addr_only or len(hit) == 1)
         if discriminating:
